@@ -18,7 +18,7 @@ func (C11) Plan(tier string) core.Plan {
 	if tier == "thorough" {
 		return core.Plan{Cases: 600000, Schedules: 8}
 	}
-	return core.Plan{Cases: 36000, Schedules: 4}
+	return core.Plan{Cases: 30000, Schedules: 4}
 }
 
 func (C11) Info() core.Info {
